@@ -303,3 +303,64 @@ pub fn bias_search(rng: &mut crate::Rng, budget: u64) -> Result<u64, (Vec<u8>, S
     }
     Ok(n)
 }
+
+/// C10: invalid MSM inputs are rejected with the matching error instead of being encoded.
+macro_rules! msm_mutate {
+    ($m:expr, $k:expr, $($v:ident),*) => {
+        match $m {
+            $( Message::$v(ref mut t) => {
+                let ds = &mut t.data_segment;
+                if ds.satellite_data.len() == 0 || ds.signal_data.len() == 0 { None } else {
+                match $k {
+                    0 => { ds.signal_data.clear(); Some("SatelliteMismatch") }
+                    1 => { ds.satellite_data.clear(); Some("SatelliteMismatch") }
+                    2 => { ds.satellite_data.as_mut_slice()[0].satellite_id = 0; Some("InvalidSatelliteId") }
+                    3 => { ds.signal_data.as_mut_slice()[0].satellite_id = 65; Some("InvalidSatelliteId") }
+                    4 => { ds.signal_data.as_mut_slice()[0].signal_id = Default::default(); Some("InvalidSignalId") }
+                    5 => { if ds.satellite_data.len() < 64 { let c = ds.satellite_data.as_slice()[0].clone(); ds.satellite_data.push(c); Some("DuplicateSatellite") } else { None } }
+                    6 => { if ds.signal_data.len() < 64 { let c = ds.signal_data.as_slice()[0].clone(); ds.signal_data.push(c); Some("DuplicateSatelliteSignal") } else { None } }
+                    _ => { // a cell on a satellite that has no row
+                        let used: Vec<u8> = ds.satellite_data.iter().map(|s| s.satellite_id).collect();
+                        match (1u8..=64).find(|s| !used.contains(s)) { Some(free) => { ds.signal_data.as_mut_slice()[0].satellite_id = free; Some("SatelliteMismatch") } None => None }
+                    }
+                } }
+            } )*
+            _ => None,
+        }
+    };
+}
+
+pub fn msm_invalid_search(rng: &mut crate::Rng, budget: u64) -> Result<u64, (Vec<u8>, String)> {
+    let nums: Vec<u16> = supported_numbers().into_iter().filter(|n| (1071..=1137).contains(n)).collect();
+    let mut n = 0u64;
+    let mut rounds = 0;
+    while n < budget && !nums.is_empty() && rounds < 200 {
+        rounds += 1;
+        for num in &nums {
+            let mut p = payload_for(*num, rng, 700, 0);
+            for _ in 0..(2 + rng.below(4)) { let b = 73 + rng.below(64); p[b / 8] |= 0x80 >> (b % 8); }
+            for _ in 0..(1 + rng.below(3)) { let b = 137 + rng.below(32); p[b / 8] |= 0x80 >> (b % 8); }
+            for k in 21..40 { p[k] = rng.next() as u8; }
+            let m = match decode_payload(&p) { Some(m) => m, None => continue };
+            // only messages the encoder accepts as they are (a decoded satellite row without any cell is itself a mismatch)
+            let mc = m.clone();
+            match std::panic::catch_unwind(move || { let mut b = MessageBuilder::new(); b.build_message(&mc).is_ok() }) { Ok(true) => {}, _ => continue }
+            for k in 0..8usize {
+                let mut m2 = m.clone();
+                let want = msm_mutate!(m2, k, Msg1071, Msg1072, Msg1073, Msg1074, Msg1075, Msg1076, Msg1077, Msg1081, Msg1082, Msg1083, Msg1084, Msg1085, Msg1086, Msg1087,
+                    Msg1091, Msg1092, Msg1093, Msg1094, Msg1095, Msg1096, Msg1097, Msg1101, Msg1102, Msg1103, Msg1104, Msg1105, Msg1106, Msg1107,
+                    Msg1111, Msg1112, Msg1113, Msg1114, Msg1115, Msg1116, Msg1117, Msg1121, Msg1122, Msg1123, Msg1124, Msg1125, Msg1126, Msg1127,
+                    Msg1131, Msg1132, Msg1133, Msg1134, Msg1135, Msg1136, Msg1137);
+                let want = match want { Some(w) => w, None => continue };
+                n += 1;
+                let r = std::panic::catch_unwind(move || { let mut b = MessageBuilder::new(); b.build_message(&m2).map(|x| x.len()).map_err(|e| format!("{:?}", e)) });
+                match r {
+                    Err(_) => return Err((p, format!("message {}: encoder panicked on an invalid MSM input (case {})", num, k))),
+                    Ok(Ok(_)) => return Err((p, format!("message {}: invalid MSM input (case {}: expected {}) was encoded instead of rejected (C10)", num, k, want))),
+                    Ok(Err(e)) => { if e != want { return Err((p, format!("message {}: invalid MSM input case {} rejected with {} instead of {} (C10)", num, k, e, want))); } }
+                }
+            }
+        }
+    }
+    Ok(n)
+}
